@@ -282,6 +282,19 @@ def peak_cases(draw):
 
 
 @st.composite
+def wide_peak_cases(draw):
+    """search ranges from half the box to beyond the box: the landscape still has its centre at zero displacement"""
+    d = draw(c04_shift.wide_cases())
+    d["api"] = "align"
+    d["noise"] = 0.0
+    d["nseed"] = 0
+    d["upsample"] = draw(st.sampled_from([1, 1, 2]))
+    # whole ranges <= box + 1 keep the landscape small
+    d["max_shifts"] = [float(min(m, n + 1)) for m, n in zip(d["max_shifts"], d["shape"])]
+    return d
+
+
+@st.composite
 def loader_cases(draw):
     model = draw(st.sampled_from(["ZNCC", "NCC", "PCC", "FSC"]))
     shape = draw(gen.box_shapes(5, 9 if model == "FSC" else 11))
@@ -310,6 +323,9 @@ def engines():
         Engine("peak", judge_peak, strategy=peak_cases(), nontrivial=nontrivial,
                labels=lambda d: [f"model:{d['model']}", f"upsample:{d['upsample']}", f"class:{d['tclass']}"] + gen.parity_class(d["shape"]),
                cases={"quick": 160, "thorough": 4000}, shards={"quick": 8, "thorough": 16}),
+        Engine("peak-wide", judge_peak, strategy=wide_peak_cases(), nontrivial=lambda d: True,
+               labels=lambda d: [f"model:{d['model']}", f"upsample:{d['upsample']}"] + gen.parity_class(d["shape"]),
+               cases={"quick": 48, "thorough": 1000}, shards={"quick": 8, "thorough": 16}),
         Engine("loader", judge_loader, strategy=loader_cases(), nontrivial=nontrivial,
                labels=lambda d: [f"model:{d['model']}", "tilt" if d["tilt"] else "no-tilt"],
                cases={"quick": 40, "thorough": 1000}, shards={"quick": 4, "thorough": 16},
